@@ -6,10 +6,11 @@ import re
 import struct
 
 from .. import bits, fields
-from ..core import FUNC, call_attr, calls_in, const, dotted, is_const, kwarg, norm, slice_parts, text, walk_local
+from ..core import AnalysisError, FUNC, call_attr, calls_in, const, dotted, is_const, kwarg, norm, slice_parts, text, walk_local
 from .c01 import field_rules
 
 EXPLANATION = [
+    'C18.defined-at-return: in every function of the codec modules a local that is returned has been assigned on every path to that return (definite-assignment walk; names bound in loops, with-items, handlers excluded): no parser falls through a `match`/`if` chain into returning the variable of another arm.',
     'C18.enum-distinct: every enumeration of wire codes in the codec modules gives distinct members distinct values (specified aliases listed by name): a member that shares a code with another one cannot round-trip.',
     'C18.rtp-tail: MediaPacket.from_bytes hands the constructor data[12 + 4*CC:] untouched on every path (symbolic value of the returned constructor call), the constructor stores it unchanged and __bytes__ ends with it: what the parser took as payload is what the serialiser writes.',
     'C18.fresh-values: no from_*/parse*/create* function of the codec modules carries a memoising decorator (lru_cache, cache, ...): a parse result is never shared with an earlier parse, so it cannot depend on the history of the process.',
@@ -418,6 +419,25 @@ def generic(ctx):
     if fn is not None:
         pay = [slice_parts(n.value) for n in walk_local(fn) if isinstance(n, ast.Assign) and dotted(n.targets[0]) == 'instance._payload']
         R.check(pay == [('data', 'offset + 3', 'offset + 3 + length')] and "struct.unpack_from('>BH', data, offset)" in norm(fn) and 'return (offset + length + 3, instance)' in norm(fn), rule, 'bumble.avrcp.BrowseableItem.parse_from_bytes', 'cached payload = the item\'s own bytes; advance = 3 + length', f'cached payload slice {pay}', p.loc(fn))
+    # AVDTP: whatever class Message.create picks (registered class, the simple-reject fallback, the generic message), the
+    # instance it returns carries the received payload: every path that reaches the return has assigned instance.payload
+    fn = p.find('bumble.avdtp.Message.create')
+    if fn is None:
+        R.bad(rule, 'bumble.avdtp.Message.create', 'anchor missing')
+    else:
+        from .. import paths as _paths
+
+        class Keeps(_paths.Domain):
+            def event(self, node, v):
+                if isinstance(node, ast.Assign) and dotted(node.targets[0]) == 'instance':
+                    return (False,)
+                if isinstance(node, ast.Assign) and dotted(node.targets[0]) in ('instance.payload', 'instance._payload') and norm(node.value) == 'payload':
+                    return (True,)
+                return (v,)
+        res = _paths.run(fn, Keeps(), False)
+        lost = sorted(f'{k} ({" ".join(w)})' for k, st in res.items() if k.startswith('ret') for v, w in st.items() if not v)
+        R.check(any(k.startswith('ret') for k in res) and not lost, rule, 'bumble.avdtp.Message.create | payload kept', 'every returned instance has been given the received payload',
+                'a message class chosen by Message.create is returned without the received payload (its own field table is empty): the message re-serialises to nothing, e.g. a reject loses its error code', p.loc(fn), lost[:3])
     # ATT generic
     fn = p.find('bumble.att.ATT_PDU.from_bytes')
     if fn is not None:
@@ -544,6 +564,92 @@ def enum_distinct(ctx):
     R.check(n >= 30, rule, 'codec enumerations', f'{n} enumerations examined', f'only {n} enumerations found')
 
 
+def defined_at_return(ctx):
+    """A parser / factory of the codec modules does not return a local that some path never assigned (the `match` arm
+    for a value without a dedicated class falling through to `return <the variable of another arm>`)."""
+    from .. import paths
+    R, p = ctx.r, ctx.p
+    rule = 'C18.defined-at-return'
+
+    def targets(node):
+        out = []
+
+        def names(t):
+            if isinstance(t, ast.Name):
+                out.append(t.id)
+            elif isinstance(t, (ast.Tuple, ast.List)):
+                for e in t.elts:
+                    names(e)
+            elif isinstance(t, ast.Starred):
+                names(t.value)
+        if isinstance(node, ast.Assign):
+            for t in node.targets:
+                names(t)
+        elif isinstance(node, (ast.AugAssign, ast.AnnAssign, ast.NamedExpr)):
+            names(node.target)
+        return out
+    n_fn = 0
+    for mn in CODEC_MODS + ['bumble.hci', 'bumble.gatt', 'bumble.at']:
+        m = p.modules.get(mn)
+        if m is None:
+            continue
+        for fn in [x for x in ast.walk(m.tree) if isinstance(x, FUNC)]:
+            a = fn.args
+            params = {x.arg for x in a.posonlyargs + a.args + a.kwonlyargs} | ({a.vararg.arg} if a.vararg else set()) | ({a.kwarg.arg} if a.kwarg else set())
+            assigned, excluded = set(), set()
+            for n in walk_local(fn):
+                assigned.update(targets(n))
+                if isinstance(n, (ast.For, ast.AsyncFor, ast.While)):
+                    # a name bound in a loop body is used after the loop on the understanding that the loop ran
+                    for x in ast.walk(n):
+                        excluded.update(targets(x))
+                    if not isinstance(n, ast.While):
+                        excluded.update(x.id for x in ast.walk(n.target) if isinstance(x, ast.Name))
+                elif isinstance(n, (ast.With, ast.AsyncWith)):
+                    excluded.update(x.id for it in n.items if it.optional_vars is not None for x in ast.walk(it.optional_vars) if isinstance(x, ast.Name))
+                elif isinstance(n, ast.ExceptHandler) and n.name:
+                    excluded.add(n.name)
+                elif isinstance(n, (ast.MatchAs, ast.MatchStar)) and n.name:
+                    excluded.add(n.name)
+                elif isinstance(n, ast.comprehension):
+                    excluded.update(x.id for x in ast.walk(n.target) if isinstance(x, ast.Name))
+                    # names bound by := inside the comprehension's conditions
+                    excluded.update(t for c_ in n.ifs for x in ast.walk(c_) if isinstance(x, ast.NamedExpr) for t in targets(x))
+                elif isinstance(n, (ast.Import, ast.ImportFrom)):
+                    excluded.update((al.asname or al.name).split('.')[0] for al in n.names)
+                elif isinstance(n, FUNC + (ast.ClassDef,)) and n is not fn:
+                    excluded.add(n.name)
+                elif isinstance(n, (ast.Global, ast.Nonlocal)):
+                    excluded.update(n.names)
+            cand = assigned - params - excluded
+            if not cand or not any(isinstance(r, ast.Return) and r.value is not None for r in walk_local(fn)):
+                continue
+            hits = []
+
+            class D(paths.Domain):
+                def event(self, node, v):
+                    if not isinstance(node, ast.AST):
+                        return (v,)
+                    if isinstance(node, ast.Return) and node.value is not None:
+                        for x in ast.walk(node.value):
+                            if isinstance(x, ast.Name) and isinstance(x.ctx, ast.Load) and x.id in cand and x.id not in v:
+                                hits.append((x.id, node.lineno))
+                    ts = targets(node) + [t for x in ast.walk(node) if isinstance(x, ast.NamedExpr) for t in targets(x)]
+                    return ((v | frozenset(ts)) if ts else v,)
+
+                def assume(self, atom, truth, v):
+                    ts = [t for x in ast.walk(atom) if isinstance(x, ast.NamedExpr) for t in targets(x)]
+                    return ((v | frozenset(ts)) if ts else v,)
+            try:
+                paths.run(fn, D(), frozenset())
+            except AnalysisError:
+                continue
+            n_fn += 1
+            for name, line in sorted(set(hits)):
+                R.bad(rule, f'{p.qual_of(fn)} | {name}', f'`{name}` is returned at line {line} on a path that never assigned it: for the inputs taking that path (a code without a dedicated class) the parser raises UnboundLocalError instead of returning a value', m.rel + f':{line}')
+    R.check(n_fn >= 150, rule, 'codec modules | functions with branch-assigned results', f'{n_fn} functions analysed, every returned local assigned on every path', f'only {n_fn} functions analysed')
+
+
 def sdp_depth(ctx):
     from . import c17
     c17.depth_balance(ctx, rule='C18.sdp-depth')
@@ -615,6 +721,7 @@ RULES = [
     ('C18.rtp-tail', rtp_tail),
     ('C18.fresh-values', fresh_values),
     ('C18.enum-distinct', enum_distinct),
+    ('C18.defined-at-return', defined_at_return),
 ]
 
 VARIANTS = [
